@@ -47,6 +47,7 @@ type Config struct {
 	SecondCheck []string // extra solvers re-discharging assertion queries (thorough)
 	Trace       bool
 	Params      map[string]int // tier bounds visible to the harness through verifParam
+	Summaries   map[string][]int // pure callees explored separately and merged (value: result indices replaced by zero)
 }
 
 func (c *Config) isNoop(path string) bool {
@@ -160,6 +161,9 @@ type interpreter struct {
 	asserts            []assertRec
 	timers             map[*value]*timerState
 	doms               map[*Term]*domain
+	sub                *subExplore
+	summaries          int
+	summaryPaths       int
 	fastDecisions      int
 }
 
@@ -223,6 +227,9 @@ func (i *interpreter) branch(t *Term) bool {
 	if t.IsConst() {
 		return t.val != 0
 	}
+	if i.sub != nil {
+		return i.subBranch(t)
+	}
 	if d, ok := i.nextDecision(); ok {
 		if d.Kind != 'b' || len(d.Excl) != 0 {
 			panic(engineError{fmt.Sprintf("decision mismatch: expected branch, prefix has %v at %d", d, i.pos-1), ""})
@@ -267,6 +274,9 @@ func (i *interpreter) branch(t *Term) bool {
 // concretize picks a concrete value for a symbolic scalar, forking over the
 // other admissible values (up to ConcCap).
 func (i *interpreter) concretize(s sv) value {
+	if i.sub != nil {
+		panic(summaryAbort{"concretisation inside a summarised callee"})
+	}
 	p := i.pool
 	eqv := func(bits uint64) *Term {
 		if s.t.sort == SBool {
@@ -376,6 +386,9 @@ func (i *interpreter) concretize(s sv) value {
 func (i *interpreter) choice(kind byte, n int) int {
 	if n <= 1 {
 		return 0
+	}
+	if i.sub != nil {
+		panic(summaryAbort{"nondeterministic choice inside a summarised callee"})
 	}
 	if d, ok := i.nextDecision(); ok {
 		if d.Kind != kind {
@@ -780,3 +793,41 @@ func (i *interpreter) domModel(res *PathResult, obsT []*Term) bool {
 }
 
 var debugQueries = os.Getenv("GOSYM_DEBUG_QUERIES") != ""
+
+// subBranch is branch() inside a summarised callee: decisions, path
+// conditions and pending alternatives are local to the sub-exploration.
+func (i *interpreter) subBranch(t *Term) bool {
+	sub := i.sub
+	take := func(v bool) bool {
+		c := t
+		if !v {
+			c = i.pool.Not(t)
+		}
+		sub.conds = append(sub.conds, c)
+		i.solver.Assert(c)
+		return v
+	}
+	if sub.pos < len(sub.prefix) {
+		d := sub.prefix[sub.pos]
+		sub.pos++
+		sub.trace = append(sub.trace, d)
+		return take(d.Val != 0)
+	}
+	rt := i.check(t, false)
+	rf := i.check(t, true)
+	tF, fF := rt != Unsat, rf != Unsat
+	switch {
+	case tF && fF:
+		alt := append(append([]Decision{}, sub.trace...), Decision{Kind: 'b', Val: 0})
+		sub.pending = append(sub.pending, alt)
+		sub.trace = append(sub.trace, Decision{Kind: 'b', Val: 1})
+		return take(true)
+	case tF:
+		sub.trace = append(sub.trace, Decision{Kind: 'b', Val: 1})
+		return take(true)
+	case fF:
+		sub.trace = append(sub.trace, Decision{Kind: 'b', Val: 0})
+		return take(false)
+	}
+	panic(summaryAbort{"infeasible inside summarised callee"})
+}
